@@ -238,6 +238,73 @@ func ruleR41(c *Ctx) {
 		if !bad {
 			c.r.ok("R41", k.Struct.Obj().Name()+".deleteChild vacates the slot on every path that decrements the fan-out", m.pos(u.Decl.Pos()), "every path with childrenLen-- also compacts or empties the slot", props...)
 		}
+		// the shrink / collapse test (childrenLen == T) is an equality: a path that decrements the
+		// fan-out and leaves without evaluating it steps past the threshold for good – the node is
+		// never shrunk or collapsed afterwards and stays linked when it is empty
+		{
+			var testBlocks []*cfg.Block
+			thr := ""
+			for _, b := range g.Blocks {
+				if !b.Live {
+					continue
+				}
+				cond := condOf(info, b)
+				if cond == nil {
+					continue
+				}
+				for _, at := range impliedAtoms(cond, true) {
+					be, ok := ast.Unparen(at.e).(*ast.BinaryExpr)
+					if !ok || (be.Op != token.EQL && be.Op != token.NEQ) {
+						continue
+					}
+					if strings.HasSuffix(exprText(be.X), "childrenLen") {
+						if tv, has := info.Types[be.Y]; has && tv.Value != nil {
+							testBlocks = append(testBlocks, b)
+							thr = tv.Value.ExactString()
+						}
+					}
+				}
+			}
+			if len(testBlocks) == 1 {
+				tb := testBlocks[0]
+				key := k.Struct.Obj().Name() + ".deleteChild evaluates its shrink test after every decrement of the fan-out"
+				var leak ast.Node
+				for _, b := range g.Blocks {
+					if !b.Live {
+						continue
+					}
+					for i, nd := range b.Nodes {
+						isDec := false
+						for _, e := range ev(b, i, nd) {
+							if e == evDEC {
+								isDec = true
+							}
+						}
+						if !isDec {
+							continue
+						}
+						// is an exit reachable from here without passing the test block? (the rest of
+						// this block runs first; the test block itself may be this block)
+						if b == tb {
+							continue
+						}
+						for blk := range reachableWithout(b, tb) {
+							if blk != b && len(blk.Succs) == 0 && leak == nil {
+								leak = nd
+							}
+						}
+						if len(b.Succs) == 0 && leak == nil {
+							leak = nd
+						}
+					}
+				}
+				if leak == nil {
+					c.r.ok("R41", key, m.pos(u.Decl.Pos()), "every path from a childrenLen-- reaches the test childrenLen == "+thr, append(props, "C17")...)
+				} else {
+					c.r.bad("R41", key, m.pos(leak.Pos()), "a path decrements childrenLen and leaves the function without evaluating the test childrenLen == "+thr+": the count steps past the threshold, the equality is never met again, and the node is never shrunk or collapsed – emptied, it stays linked and pins its ancestors", append(props, "C17")...)
+				}
+			}
+		}
 	}
 	if n < 3 {
 		c.r.undecided("R41", "deleteChild methods found", "node.go", fmt.Sprintf("only %d", n), props...)
